@@ -284,6 +284,11 @@ def rule_levels(ctx, rep, rid):
             want = ("bin", "shl", ("c", 1), lvl)
             good = [x for x in brk if x[2][0] in ("ult", "uge") and tg(x[2][1]) and x[2][2] == want]
             rep.check(len(good) == len(brk), rid, name + ".target-test", "growth stops when resize_target < 1 << i", "growth is cancelled on %s" % [ir.atom_str(x[2]) for x in brk if x not in good][:2], [brk[0][0].where()])
+            for t, s_, a in good:
+                body = f.reach([f.blocks[s_].insts[0]], [c for c in calls if c.blk.id != t.blk.id], include_start=True, avoid=lambda i, t=t: i is t)[0] is not None
+                want_body = a[0] == "uge"
+                rep.check(body == want_body, rid, name + ".target-test-polarity@%s" % a[0], "target %s 1 << i %s the level" % (">=" if a[0] == "uge" else "<", "processes" if a[0] == "uge" else "skips"),
+                          "the growth loop %s when resize_target %s 1 << i: levels the target asks for are never created (or creation continues past the target)" % ("continues" if body else "stops", ">=" if a[0] == "uge" else "<"), [t.where()])
             dst = pat.branch_edges_on(f, lambda a: a[0] in ("ne", "eq") and a[2] == ("c", 0) and a[1][0] == "load" and a[1][1].endswith("cds_lfht.in_progress_destroy"))
             if not dst:
                 rep.bad(rid, name + ".stops-for-destroy", "init_table no longer stops when a destroy is in progress", [f.name])
@@ -297,6 +302,16 @@ def rule_levels(ctx, rep, rid):
             wants = (("bin", "shl", ("c", 1), ("bin", "sub", lvl, ("c", 1))), ("bin", "shl", ("c", 1), ("bin", "add", lvl, ("c", -1))))
             good = [x for x in brk if x[2][0] in ("ugt", "ule") and tg(x[2][1]) and x[2][2] in wants]
             rep.check(len(good) == len(brk), rid, name + ".target-test", "shrinking stops when resize_target > 1 << (i - 1)", "shrinking is cancelled on %s" % [ir.atom_str(x[2]) for x in brk if x not in good][:2], [brk[0][0].where()])
+            for t, s_, a in good:
+                body = f.reach([f.blocks[s_].insts[0]], [c for c in calls if c.blk.id != t.blk.id and c.callee != "cds_lfht_free_bucket_table"] + szs, include_start=True, avoid=lambda i, t=t: i is t)[0] is not None
+                want_body = a[0] == "ule"
+                rep.check(body == want_body, rid, name + ".target-test-polarity@%s" % a[0], "target %s 1 << (i - 1) %s the level" % ("<=" if a[0] == "ule" else ">", "removes" if a[0] == "ule" else "keeps"),
+                          "the shrink loop %s when resize_target %s 1 << (i - 1): levels still wanted by the target are removed (or none ever is)" % ("continues" if body else "stops", "<=" if a[0] == "ule" else ">"), [t.where()])
+            dst = pat.branch_edges_on(f, lambda a: a[0] in ("ne", "eq") and a[2] == ("c", 0) and a[1][0] == "load" and a[1][1].endswith("cds_lfht.in_progress_destroy"))
+            for t, s_, a in dst:
+                if a[0] == "ne":
+                    hit, _ = f.reach([f.blocks[s_].insts[0]], [c for c in calls if c.callee != "cds_lfht_free_bucket_table"] + szs, include_start=True)
+                    rep.check(hit is None, rid, name + ".stops-for-destroy", "a destroy in progress ends the shrink", "after seeing in_progress_destroy the shrink continues", [t.where()])
 
 
 def rule_count_nodes(ctx, rep, rid):
@@ -410,3 +425,269 @@ def rule_delete_bucket(ctx, rep, rid):
                 ok = (c != 0 and saw_end and not saw_user) or (c == 0 and saw_user)
                 rep.check(ok, rid, "is_empty.ret%d" % (1 if c else 0), "returns %s exactly %s" % ("non-zero" if c else "0", "after reaching END having seen only bucket nodes" if c else "at the first user node"),
                           "cds_lfht_is_empty returns %d on a path with %s" % (c, [ir.atom_str(a) for a in atoms if a[0] in ("eq", "ne") and a[1][0] == "bin"][:4]), [f.rets()[0].where()])
+
+
+def _rh_cmp_edges(f, node_arg):
+    """edges (blk, succ) taken when clear(iter)->reverse_hash > node->reverse_hash, and when the iterator is at END"""
+    rh_node = lambda e: e[0] == "load" and e[1] == "arg%d.cds_lfht_node.reverse_hash" % node_arg
+    rh_iter = lambda e: e[0] == "load" and e[1].endswith("cds_lfht_node.reverse_hash") and not e[1].startswith("arg%d." % node_arg)
+    gt, end, le, notend = set(), set(), set(), set()
+    for b in f.blocks:
+        for s_ in b.succ:
+            for a in ir.edge_atoms(f, b.id, s_):
+                if len(a) != 3:
+                    continue
+                if a[2] == ("c", 0) and a[1][0] == "bin" and a[1][1] == "and" and a[1][3] == ("c", -8):
+                    (end if a[0] == "eq" else notend).add((b.id, s_))
+                elif (a[0] == "ugt" and rh_iter(a[1]) and rh_node(a[2])) or (a[0] == "ult" and rh_node(a[1]) and rh_iter(a[2])):
+                    gt.add((b.id, s_))
+                elif (a[0] == "ule" and rh_iter(a[1]) and rh_node(a[2])) or (a[0] == "uge" and rh_node(a[1]) and rh_iter(a[2])):
+                    le.add((b.id, s_))
+    return gt, end, le, notend
+
+
+def rule_gcskel(ctx, rep, rid):
+    """_cds_lfht_gc_bucket: the scan gives up (returns) only at the end of the list or past the node's position in the order;
+    it unlinks only after meeting a REMOVED successor; the predecessor advances to the node just examined and restarts from
+    the bucket after every unlink attempt."""
+    B = bits(ctx)
+    g = fn(ctx, "_cds_lfht_gc_bucket")
+    rep.touch(g)
+    gt, end, le, notend = _rh_cmp_edges(g, 1)
+    pat.require(gt and end, "gc_bucket: end / order tests")
+    rets = list(g.rets())
+    rep.must_take_edge(rid, "gc.returns-only-when-absent", g, [g.entry()], rets, sorted(gt | end), include_start=True,
+                       what="gc returns only at the end of the chain or at the first node ordered after the target")
+    cx = [e for e in pat.accesses(g, NEXT, ("cmpxchg",))]
+    pat.require(len(cx) == 1, "gc_bucket: unlink cmpxchg")
+    # the unlink is reached only after a REMOVED successor was seen
+    rem = [(t.blk.id, s_) for t, s_, a in pat.branch_edges_on(g, lambda a: a[0] == "ne" and a[2] == ("c", 0) and a[1][0] == "bin" and a[1][1] == "and" and a[1][3] == ("c", B.REMOVED) and a[1][2][0] == "load")]
+    pat.require(rem, "gc_bucket: REMOVED test")
+    rep.must_take_edge(rid, "gc.unlink-only-removed", g, [g.entry()], [cx[0].inst], rem, include_start=True, what="the unlink is attempted only after a successor word with REMOVED was loaded")
+    # predecessor: phi over {bucket (restart), clear(iter) (advance)}
+    base = cx[0].ap["base"]
+    pat.require(base[0] == "i" and g.insts[base[1]].op == "phi", "gc_bucket: predecessor is not a loop variable")
+    ph = g.insts[base[1]]
+    incs = [ir.expr(g, v, 4) for v, _b in ph.d["inc"]]
+    has_bucket = ("arg", 0) in incs
+    adv = [x for x in incs if x[0] == "bin" and x[1] == "and" and x[3] == ("c", -8)]
+    rep.check(has_bucket and adv, rid, "gc.predecessor", "the predecessor restarts at the bucket and advances to clear_flag(iter)", "predecessor takes the values %s: %s" % (
+        [ir.expr_str(x) for x in incs], "it never advances (the unlink is applied to the bucket's next whatever node was found)" if not adv else "it is not reset to the bucket when the scan restarts"), [cx[0].inst.where()])
+
+
+def rule_addprev(ctx, rep, rid):
+    """_cds_lfht_add: the predecessor used by the insertion restarts at the bucket on every retry and advances to clear_flag(iter)"""
+    f = fn(ctx, "_cds_lfht_add")
+    rep.touch(f)
+    cx = [e for e in pat.accesses(f, NEXT, ("cmpxchg",)) if ir.expr_contains(ir.expr(f, e.new, 8), lambda z: z == ("arg", 5))]
+    pat.require(len(cx) == 1, "_cds_lfht_add: insertion cmpxchg")
+    base = cx[0].ap["base"]
+    pat.require(base[0] == "i" and f.insts[base[1]].op == "phi", "_cds_lfht_add: predecessor is not a loop variable")
+    ph = f.insts[base[1]]
+    incs = [ir.expr(f, v, 4) for v, _b in ph.d["inc"]]
+    has_bucket = any(x[0] == "call" and x[1] == "lookup_bucket" for x in incs)
+    adv = [x for x in incs if x[0] == "bin" and x[1] == "and" and x[3] == ("c", -8)]
+    rep.check(has_bucket and bool(adv), rid, "add.predecessor", "the predecessor restarts at lookup_bucket() and advances to clear_flag(iter)",
+              "predecessor takes the values %s: %s" % ([ir.expr_str(x) for x in incs], "a retry continues from a stale predecessor (possibly removed meanwhile)" if not has_bucket else "it never advances"), [cx[0].inst.where()])
+
+
+def rule_partloops(ctx, rep, rid):
+    """the per-partition loops visit index size + start, ..., size + start + len - 1 once each, with size = 1 << (i - 1)"""
+    for name in ("init_table_populate_partition", "remove_table_partition"):
+        g = fn(ctx, name)
+        rep.touch(g)
+        ba = pat.calls(g, "bucket_at")
+        pat.require(ba, name + ": bucket_at")
+        j = ir.expr(g, ba[0].args[1], 3)
+        pat.require(j[0] == "phi", name + ": loop index")
+        ph = g.insts[j[1]]
+        incs = [ir.expr(g, v, 6) for v, _b in ph.d["inc"]]
+        size = ("bin", "shl", ("c", 1), ("bin", "sub", ("arg", 1), ("c", 1)))
+        size2 = ("bin", "shl", ("c", 1), ("bin", "add", ("arg", 1), ("c", -1)))
+        init = [x for x in incs if x in (("bin", "add", size, ("arg", 2)), ("bin", "add", size2, ("arg", 2)), ("bin", "add", ("arg", 2), size), ("bin", "add", ("arg", 2), size2))]
+        step = [x for x in incs if x == ("bin", "add", ("phi", ph.id), ("c", 1))]
+        other = [x for x in incs if x not in init and x not in step]
+        rep.check(bool(init) and bool(step) and not other, rid, name + ".index", "index runs from (1 << (i - 1)) + start in steps of +1",
+                  "loop index takes %s: expected start (1 << (i-1)) + start and step +1 - buckets of another level are touched / the level is walked backwards into other memory" % [ir.expr_str(x) for x in incs], [ba[0].where()])
+        bound = [a for t, s_, a in pat.branch_edges_on(g, lambda a: len(a) == 3 and a[1] == ("phi", ph.id))]
+        okb = any(a[0] in ("ult", "uge") and ir.expr_contains(a[2], lambda z: z == ("arg", 3)) and ir.expr_contains(a[2], lambda z: z == ("arg", 2)) for a in bound)
+        rep.check(okb, rid, name + ".bound", "loop bound is size + start + len", "loop bound is %s" % [ir.atom_str(a) for a in bound][:2], [ba[0].where()])
+
+
+def rule_createbucket(ctx, rep, rid):
+    """cds_lfht_create_bucket: level 0 is allocated and bucket 0 is the list head (reverse hash 0, next = END|BUCKET); for each
+    further level `order` up to the initial order, len = 1 << (order - 1) bucket nodes are allocated, node len + i gets
+    reverse hash bit_reverse(len + i) and is linked right after its parent bucket i."""
+    B = bits(ctx)
+    f = fn(ctx, "cds_lfht_create_bucket")
+    rep.touch(f)
+    al = pat.calls(f, "cds_lfht_alloc_bucket_table")
+    ba = pat.calls(f, "bucket_at")
+    pat.require(len(al) >= 2 and len(ba) >= 3, "create_bucket anatomy")
+    a0 = [c for c in al if ir.const_of(f, c.args[1]) == 0]
+    rep.check(bool(a0), rid, "create.level0", "level 0 is allocated", "level 0 (bucket 0 .. min_nr_alloc_buckets-1) is never allocated", [f.name])
+    b0 = [c for c in ba if ir.const_of(f, c.args[1]) == 0]
+    if a0 and b0:
+        rep.must_pass(rid, "create.level0≺head", f, [f.entry()], b0, lambda i: i in a0, include_start=True, what="level 0 is allocated before bucket 0 is initialised")
+    head_next = [s for s in pat.stores(f, NEXT) if ir.const_of(f, s.args[0]) == (1 | B.BUCKET) or ir.expr(f, s.args[0], 3) == ("c", 1 | B.BUCKET) or ir.const_of(f, s.args[0]) == B.BUCKET]
+    rep.check(bool(head_next), rid, "create.head", "bucket 0's next is the flagged end marker", "bucket 0 is not initialised as an empty list head (next = END | BUCKET)", [f.name])
+    lv = [c for c in al if c not in a0]
+    if not lv:
+        raise Broken("create_bucket: per-level allocation not found")
+    o = ir.expr(f, lv[0].args[1], 3)
+    pat.require(o[0] == "phi", "create_bucket: level variable")
+    oph = f.insts[o[1]]
+    oin = [ir.expr(f, v, 4) for v, _b in oph.d["inc"]]
+    rep.check(("c", 1) in oin and ("bin", "add", ("phi", oph.id), ("c", 1)) in oin, rid, "create.levels", "levels 1, 2, ... in steps of 1", "level variable takes %s" % [ir.expr_str(x) for x in oin], [lv[0].where()])
+    ob = [a for t, s_, a in pat.branch_edges_on(f, lambda a: len(a) == 3 and a[1] == ("phi", oph.id))]
+    okob = any(a[0] in ("ult", "uge") and ir.expr_contains(a[2], lambda z: z[0] == "call" and z[1].startswith("cds_lfht_get_count_order")) and ir.expr_contains(a[2], lambda z: z == ("c", 1)) for a in ob)
+    rep.check(okob, rid, "create.level-bound", "levels up to and including the order of the initial size", "level loop bound is %s" % [ir.atom_str(a) for a in ob][:2], [lv[0].where()])
+    ln = ("bin", "shl", ("c", 1), ("bin", "add", ("phi", oph.id), ("c", -1)))
+    ln2 = ("bin", "shl", ("c", 1), ("bin", "sub", ("phi", oph.id), ("c", 1)))
+    inner = [c for c in ba if c not in b0]
+    pat.require(len(inner) == 2, "create_bucket: parent / child lookups")
+    idx = [ir.expr(f, c.args[1], 6) for c in inner]
+    par = [x for x in idx if x[0] == "phi"]
+    pat.require(len(par) == 1, "create_bucket: parent index")
+    iph = f.insts[par[0][1]]
+    child = [x for x in idx if x is not par[0]][0]
+    okchild = child in (("bin", "add", ln, par[0]), ("bin", "add", ln2, par[0]), ("bin", "add", par[0], ln), ("bin", "add", par[0], ln2))
+    rep.check(okchild, rid, "create.child-index", "child bucket index = (1 << (order - 1)) + i", "child bucket index is %s" % ir.expr_str(child), [inner[0].where()])
+    ib = [a for t, s_, a in pat.branch_edges_on(f, lambda a: len(a) == 3 and a[1] == ("phi", iph.id))]
+    okib = any(a[0] in ("ult", "uge") and a[2] in (ln, ln2) for a in ib)
+    rep.check(okib, rid, "create.inner-bound", "i runs over 0 .. len - 1", "inner loop bound is %s" % [ir.atom_str(a) for a in ib][:2], [inner[0].where()])
+    iin = [ir.expr(f, v, 4) for v, _b in iph.d["inc"]]
+    rep.check(("c", 0) in iin and ("bin", "add", ("phi", iph.id), ("c", 1)) in iin, rid, "create.inner-step", "i = 0, 1, ...", "i takes %s" % [ir.expr_str(x) for x in iin], [inner[0].where()])
+    rhs = [s for s in pat.stores(f, RH) if ir.const_of(f, s.args[0]) is None]
+    okrh = bool(rhs) and all((lambda v: v[0] == "call" and v[1] == "bit_reverse_ulong" and ir.expr(f, f.insts[v[2]].args[0], 6) == child)(ir.expr(f, s.args[0], 3)) for s in rhs)
+    rep.check(okrh, rid, "create.rh", "child reverse hash = bit_reverse(child index)", "child reverse hash is not bit_reverse of its index", [s.where() for s in rhs[:1]])
+    # linking: child->next = parent->next ; parent->next = child | BUCKET
+    link = [s for s in pat.stores(f, NEXT) if s not in head_next]
+    pat.require(len(link) == 2, "create_bucket: link stores")
+    vals = [(s, ir.expr(f, s.args[0], 6)) for s in link]
+    c_st = [s for s, v in vals if v[0] == "load" and v[1].endswith("cds_lfht_node.next")]
+    p_st = [s for s, v in vals if v[0] == "bin" and v[1] == "or" and v[3] == ("c", B.BUCKET)]
+    rep.check(len(c_st) == 1 and len(p_st) == 1 and f.dominates(c_st[0], p_st[0]), rid, "create.link", "child->next = parent->next, then parent->next = child | BUCKET",
+              "bucket nodes are linked with %s" % [ir.expr_str(v) for s, v in vals], [s.where() for s in link])
+
+
+def rule_newfields(ctx, rep, rid):
+    """cds_lfht_new: the fields later code depends on are set from the arguments before the table is returned"""
+    m = ctx.mod("cds", "perfn")
+    f = m.fn("_cds_lfht_new_with_alloc")
+    if f is None:
+        raise Broken("_cds_lfht_new_with_alloc vanished")
+    rep.touch(f)
+    want = {"cds_lfht.flags": ("arg", 3), "cds_lfht.flavor": ("arg", 5)}
+    for fld, src in want.items():
+        st = [s for s in pat.stores(f, fld) if ir.expr(f, s.args[0], 3) == src]
+        if not st:
+            rep.bad(rid, "new." + fld.split(".")[1], "cds_lfht_new does not store its `%s` argument into the table (%s)" % (fld.split(".")[1],
+                    "auto-resize / accounting requested by the caller are silently off" if "flags" in fld else "every later operation calls through a NULL flavor"), [f.name])
+        else:
+            alloc = [i for i in f.all_insts() if i.op == "icall" and (lambda e: e[0] == "load" and e[1].endswith("cds_lfht_mm_type.alloc_cds_lfht"))(ir.expr(f, i.d["fp"]))]
+            pat.require(alloc, "cds_lfht_new: allocation")
+            rep.must_pass(rid, "new." + fld.split(".")[1], f, alloc, None, lambda i, st=st: i in st, to_exit=True, what="%s stored before the table is returned" % fld)
+    iw = pat.calls(f, "cds_lfht_init_worker")
+    if not iw:
+        rep.bad(rid, "new.worker", "cds_lfht_new never creates the resize worker", [f.name])
+    else:
+        lv = pat.dom_leaf_atoms(f, iw[0])
+        ok = any(a[0] == "ne" and a[2] == ("c", 0) and a[1][0] == "bin" and a[1][1] == "and" and a[1][2] == ("arg", 3) and a[1][3] == ("c", 1) for a in lv)
+        rep.check(ok, rid, "new.worker", "the resize worker is created exactly for AUTO_RESIZE tables", "cds_lfht_init_worker is not guarded by flags & CDS_LFHT_AUTO_RESIZE", [iw[0].where()])
+        auto = set((t.blk.id, s_) for t, s_, a in pat.branch_edges_on(f, lambda a: a[0] == "eq" and a[2] == ("c", 0) and a[1][0] == "bin" and a[1][1] == "and" and a[1][2] == ("arg", 3) and a[1][3] == ("c", 1)))
+        cb = pat.calls(f, "cds_lfht_create_bucket")
+        if cb:
+            rep.must_pass(rid, "new.worker-before-table", f, [f.entry()], cb, lambda i: i in iw, include_start=True, edge_ok=pat.block_edge_filter(auto), what="AUTO_RESIZE tables get their worker before the table exists")
+    sc = pat.calls(f, "alloc_split_items_count")
+    rep.check(bool(sc), rid, "new.split-counters", "split counters are set up (lazy resize / count_nodes approximations)", "alloc_split_items_count is never called: node accounting is silently off", [f.name])
+
+
+def _null_ret_edges(f):
+    """edges leading to a `return NULL` of the parameter validation"""
+    out = set()
+    for r in f.rets():
+        if not r.args:
+            continue
+    for p_, atoms, v in paths.ret_cases(f):
+        if v == ("c", 0):
+            for a, b in zip(p_, p_[1:]):
+                pass
+    # simpler: exclude edges whose target block can only reach a return of constant 0
+    for b in f.blocks:
+        for s_ in b.succ:
+            t = f.blocks[s_]
+            if t.insts[-1].op == "ret" and t.insts[-1].args and ir.const_of(f, t.insts[-1].args[0]) == 0 and len(t.insts) <= 2:
+                out.add((b.id, s_))
+    return out
+
+
+def rule_destroy2(ctx, rep, rid):
+    """destroy paths: the table is released only after cds_lfht_delete_bucket() succeeded (it refuses a non-empty table), and a
+    refusal is reported to the caller / is fatal on the worker; the worker-side destroy runs as a registered RCU thread."""
+    m = ctx.mod("cds", "perfn")
+    for name in ("cds_lfht_destroy", "do_auto_resize_destroy_cb"):
+        f = m.fn(name)
+        if f is None:
+            raise Broken(name + " vanished")
+        rep.touch(f)
+        db = pat.calls(f, "cds_lfht_delete_bucket")
+        fr = [c for c in f.calls() if c.callee in ("poison_free", "free")] + [i for i in f.all_insts() if i.op == "icall" and (lambda e: e[0] == "load" and e[1].endswith("cds_lfht_alloc.free"))(ir.expr(f, i.d["fp"], 4))]
+        if not db:
+            rep.bad(rid, name + ".delete_bucket", "%s releases the table without cds_lfht_delete_bucket(): bucket memory leaks and a non-empty table is destroyed without complaint" % name, [f.name])
+            continue
+        pat.require(fr, name + ": table release")
+        okedge = [(t.blk.id, s_) for t, s_, a in pat.branch_edges_on(f, lambda a: a[0] == "eq" and a[2] == ("c", 0) and a[1][0] == "call" and a[1][2] == db[0].id)]
+        if name == "cds_lfht_destroy":
+            auto = set((t.blk.id, s_) for t, s_, a in pat.branch_edges_on(f, lambda a: a[0] == "ne" and a[2] == ("c", 0) and a[1][0] == "bin" and a[1][1] == "and" and a[1][3] == ("c", 1) and a[1][2][0] == "load" and a[1][2][1].endswith("cds_lfht.flags")))
+        else:
+            auto = set()
+        if not okedge:
+            rep.bad(rid, name + ".release-only-if-empty", "the result of cds_lfht_delete_bucket() does not gate the release of the table", [db[0].where()])
+        else:
+            rep.must_take_edge(rid, name + ".release-only-if-empty", f, [f.entry()], fr, okedge, include_start=True, what="the table is released only on the edge delete_bucket() == 0")
+        if name == "cds_lfht_destroy":
+            # the refusal is what the caller gets back
+            bad = []
+            for p_, atoms, v in paths.ret_cases(f):
+                refused = any(a[0] == "ne" and a[2] == ("c", 0) and a[1][0] == "call" and a[1][2] == db[0].id for a in atoms)
+                if refused and not (v is not None and v[0] == "call" and v[2] == db[0].id):
+                    bad.append(v)
+            rep.check(not bad, rid, name + ".reports-refusal", "a refusal (-EPERM) of delete_bucket is returned to the caller", "destroy returns %s although delete_bucket refused" % [ir.expr_str(x) if x else None for x in bad][:2], [db[0].where()])
+        else:
+            ics = [i for i in f.all_insts() if i.op == "icall"]
+            reg = [i for i in ics if (lambda e: e[0] == "load" and e[1].endswith("rcu_flavor_struct.register_thread"))(ir.expr(f, i.d["fp"], 6))]
+            unr = [i for i in ics if (lambda e: e[0] == "load" and e[1].endswith("rcu_flavor_struct.unregister_thread"))(ir.expr(f, i.d["fp"], 6))]
+            if not reg or not unr:
+                rep.bad(rid, name + ".registered", "the worker-side destroy does not register / unregister with the flavor around delete_bucket", [f.name])
+            else:
+                rep.must_pass(rid, name + ".registered", f, [f.entry()], db, lambda i: i in reg, include_start=True, what="register_thread before delete_bucket")
+                rep.must_pass(rid, name + ".unregisters", f, db, None, lambda i: i in unr, to_exit=True, what="unregister_thread before returning")
+
+
+def rule_explicit_resize(ctx, rep, rid):
+    """cds_lfht_resize(ht, n): the clamped, power-of-two target is stored into resize_target before the resize loop runs, under
+    the resize mutex; the worker callback runs the same loop registered and under the same mutex."""
+    m = ctx.mod("cds", "flat")
+    f = m.fn("cds_lfht_resize")
+    if f is None:
+        raise Broken("cds_lfht_resize vanished")
+    rep.touch(f)
+    st = [s for s in pat.stores(f, "cds_lfht.resize_target")]
+    loop = [l for l in pat.loads(f, "cds_lfht.resize_target")]
+    lk = [c for c in f.calls("pthread_mutex_lock") if c.d["aps"][0] is not None and pat.last_field(c.d["aps"][0]) == "cds_lfht.resize_mutex"]
+    if not st:
+        rep.bad(rid, "resize.target-stored", "cds_lfht_resize never stores the requested size into resize_target: an explicit resize does nothing", [f.name])
+        return
+    pat.require(lk and loop, "cds_lfht_resize: mutex / resize loop")
+    rep.must_pass(rid, "resize.target-stored", f, [f.entry()], lk, lambda i: i in st, include_start=True, what="the target is published before the resize loop is entered")
+    def depends(v, k, depth=12):
+        if v == ["a", k] or tuple(v) == ("a", k):
+            return True
+        if v[0] != "i" or depth == 0:
+            return False
+        i = f.insts[v[1]]
+        ops = list(i.args) + ([x for x, _b in i.d["inc"]] if i.op == "phi" else [])
+        return any(x is not None and depends(x, k, depth - 1) for x in ops)
+    dep = all(depends(s.args[0], 1) for s in st)
+    rep.check(dep, rid, "resize.target-from-arg", "the stored target is derived from the requested size", "the stored target does not depend on the requested size: %s" % [ir.expr_str(ir.expr(f, s.args[0], 6)) for s in st][:1], [st[0].where()])
